@@ -23,6 +23,7 @@ pub fn stream_cfg(rng: &mut Rng) -> Cfg {
     if rng.chance(1, 10) {
         cfg.max_fields = 30;
     }
+    cfg.twins = rng.chance(1, 4);
     cfg
 }
 
